@@ -333,11 +333,11 @@ func genBr(r *rand.Rand, mem bool) cpuCase {
 // G-shadow: taken branches and jumps whose shadow (the next 1–4 slots) holds register writes,
 // stores, loads from any address (also out of range), jal, div by zero, an undefined label, a second
 // branch; slow conditions (fed by a load) so the shadow gets far before the branch resolves.
-func genShadow(r *rand.Rand) cpuCase { return genShadowK(r, false) }
+func genShadow(r *rand.Rand) cpuCase { return genShadowK(r, false, false) }
 
 // shadow-reg: the same, with register-only shadows (register writes, jal, a second branch) and
 // fast or ALU-delayed conditions: no memory access, no instruction that can fail.
-func genShadowK(r *rand.Rand, regOnly bool) cpuCase {
+func genShadowK(r *rand.Rand, regOnly bool, retShadow bool) cpuCase {
 	ms := 1024
 	g := newGen(r, 3+r.Intn(4), ms)
 	if !regOnly {
@@ -349,6 +349,9 @@ func genShadowK(r *rand.Rand, regOnly bool) cpuCase {
 		l := g.label()
 		c := g.reg()
 		slow := r.Intn(2) == 0
+		if retShadow {
+			slow = true
+		}
 		if slow && regOnly {
 			// a chain of multiplications delays the condition a little
 			g.emit("mul %s, %s, %s", c, g.srcReg(), g.srcReg())
@@ -376,7 +379,11 @@ func genShadowK(r *rand.Rand, regOnly bool) cpuCase {
 		for i := 0; i < sh; i++ {
 			pick := r.Intn(9)
 			if regOnly {
-				pick = []int{0, 1, 5, 8, 0, 1}[r.Intn(6)]
+				pick = []int{0, 1, 5, 8, 0, 1, 9}[r.Intn(7)]
+			}
+			if retShadow {
+				// load-fed (slow) condition; the shadow holds only register writes and a `ret` that must not end the run
+				pick = []int{0, 1, 9, 9}[r.Intn(4)]
 			}
 			switch pick {
 			case 0:
@@ -395,6 +402,8 @@ func genShadowK(r *rand.Rand, regOnly bool) cpuCase {
 				g.emit("div %s, %s, zero", g.reg(), g.srcReg())
 			case 7:
 				g.emit("j nowhere")
+			case 9:
+				g.emit("ret")
 			default:
 				g.emit("beqz zero, %s", l)
 			}
@@ -408,6 +417,9 @@ func genShadowK(r *rand.Rand, regOnly bool) cpuCase {
 	fam := "shadow"
 	if regOnly {
 		fam = "shadow-reg"
+	}
+	if retShadow {
+		fam = "shadow-ret"
 	}
 	return cpuCase{family: fam, text: g.text(), regs: initRegs(r, g), memSize: ms, mem: randMem(r, ms)}
 }
@@ -902,6 +914,8 @@ func genCase(r *rand.Rand, family string) cpuCase {
 	switch family {
 	case "resume":
 		return genResume(r)
+	case "shadow-ret":
+		return genShadowK(r, false, true)
 	case "pingpong":
 		return genPingpong(r)
 	case "stream":
@@ -923,7 +937,7 @@ func genCase(r *rand.Rand, family string) cpuCase {
 	case "shadow":
 		return genShadow(r)
 	case "shadow-reg":
-		return genShadowK(r, true)
+		return genShadowK(r, true, false)
 	case "tail":
 		return genTail(r)
 	case "pair":
